@@ -197,7 +197,8 @@ def nontrivial(res):
     return res.status == 'abort' or e1prop.default_nontrivial(res)
 
 
-PLAN = e1prop.Plan('C14', ROWS, cfgs=('v6', 'v7', 'v6-nosec'), classify=classify, nontrivial=nontrivial, tweak_case=tweak,
+from vf.props.c03 import shape_list  # noqa: E402
+PLAN = e1prop.Plan('C14', ROWS, cfgs=('v6', 'v7', 'v6-nosec'), classify=classify, nontrivial=nontrivial, tweak_case=tweak, tweak_word=shape_list,
                    case_kw=lambda rng, row: {'mpu': True, 'e': rng.choice((0, 0, 1)), 'code_base': 0x8000,
                                              'mode': rng.choice(('usr', 'usr', 'svc', 'irq', 'sys', 'abt'))})
 
